@@ -19,7 +19,7 @@ TRUSTED = ["python dict / set recount over Tensor.inds and Tensor.tags (shares n
            "CPython reference counting / gc.collect() frees dropped networks"]
 ASSUMPTIONS = [
     "networks of <= 12 tensors, rank <= 5 (6 after new_bond), dims 1-3, at most 5 live networks, histories of 25 (quick) / "
-    "80-120 (thorough) steps; one size per label across the whole world (renames only to fresh or same-size labels; "
+    "60-100 (thorough) steps; one size per label across the whole world (renames only to fresh or same-size labels; "
     "fuse_multibonds_ only when no tensor outside the network carries the fused labels)",
     "one tensor object is never put twice into the same network (virtual adds / virtual combinations of overlapping "
     "networks are excluded); Tensor.tags is never mutated directly (documented as unsupported)",
@@ -28,11 +28,15 @@ ASSUMPTIONS = [
     "contract_tags is called only inside its documented domain of output inference (no hyper label inside the tagged set)",
     "selection with a tag / label carried by no tensor may raise KeyError instead of returning the empty selection; "
     "retag is only called with tags that are present (an absent key raises KeyError)",
-    "a history is abandoned at its first violation; the known finding (label twice on one tensor) therefore ends the "
-    "history in which it fires",
+    "a history is abandoned at its first violation of a persistent-state contract (completion, abstract effect, maps, "
+    "inner/outer, owners, sizes, combination); the known finding (label twice on one tensor) therefore ends the history in "
+    "which it fires; wrong views / selections do not end it",
+    "split-gate modes of gate_inds (which name their bond literally 'b') are applied only when no tensor outside the "
+    "receiver carries a label 'b'; 'split' / 'reduce-split' / eager two-site contraction only on two tensors joined by "
+    "exactly one plain bond; gate targets are always given as a sequence",
 ]
-EXPLANATION = ("E3: history walkers (random hyper-graph networks; MPS / MPO / PEPS / random-regular networks) over 23 families "
-               "of public operations, with 8 run-time contracts evaluated after every step: operation completes, exact abstract "
+EXPLANATION = ("E3: history walkers (random hyper-graph networks; MPS / MPO / PEPS / random-regular networks) over 25 families "
+               "of public operations, with 9 run-time contracts evaluated after every step: operation completes, exact abstract "
                "effect (membership by identity, labels, tags, frame), maps == recount (+ tn.check()), inner/outer == recount, "
-               "owner registry, size agreement, selection == recount, combination never merges/splits bonds nor renames outer "
-               "labels.")
+               "owner registry, size agreement, selection == recount, returned views/copies hold exactly the expected "
+               "tensors, combination never merges/splits bonds nor renames outer labels.")
